@@ -5,7 +5,8 @@ _ANCHORS = ["src/hgraph/types/metadata/ts_data_slot_ops.cpp", "src/hgraph/types/
             "src/hgraph/types/time_series/ts_output/set_view.cpp", "src/hgraph/types/time_series/ts_output/dict_view.cpp",
             "src/hgraph/types/utils/stable_slot_store.cpp", "src/hgraph/types/utils/slot_observer.cpp",
             "src/hgraph/types/time_series/ts_delta.cpp", "src/hgraph/types/time_series/ts_data/base_view.cpp"]
-_REACH = ["end", "shape_tss", "shape_tsd", "shape_tsl", "shape_tsb", "shape_tsw", "shape_tsd_tss", "key_erased", "nested_remove",
+_REACH = ["end", "shape_tss", "shape_tsd", "shape_tsl", "shape_tsb", "shape_tsw", "shape_tsd_tss", "shape_tss_onekey", "shape_tsd_onekey",
+          "add_remove_add_same_key_one_cycle", "remove_add_remove_same_key_one_cycle", "key_reinserted_after_write_same_cycle", "key_erased", "nested_remove",
           "key_recreated_in_later_cycle", "idle_cycle", "added_and_removed_same_cycle",
           "removed_and_readded_same_cycle", "element_only_write", "key_created_without_value", "element_invalidated", "list_grew",
           "element_written_twice_in_cycle", "whole_value_write", "window_cleared", "window_rolled", "min_period_above_one"]
@@ -19,7 +20,9 @@ reg("C05",
     thorough=dict(defs=dict(NCYC=3, NCYC_TSS=3, NCYC_TSD=3, BIG_LAST=1, MID5=2, NOPS=2, NK=2, RAMP=9), symx=dict(shards=16, **{"max-wall": 3000, "shard-depth": 8})),
     reach=_REACH,
     bounds="unit level, no graph: one real TSOutput of each shape in {TSS<int>, TSD<int,TS<int>>, dynamic TSL<TS<int>>, TSB{a,b}, TSW<int,N,min> with N in 1..3 and "
-           "min in 1..N, TSD<int,TSS<int>> (3 cycles of NOPS, MID5, 1 operations from {add (k,e) creating k, remove (k,e), erase k, clear}, elements {0,1})} (enumerated) observed through the producer view, a bound TSInput consumer, delta_value() and capture_delta(); NCYC cycles (TSS: NCYC_TSS with TSS_LAST mutations in the last one, "
+           "min in 1..N, TSD<int,TSS<int>> (3 cycles of NOPS, MID5, 1 operations from {add (k,e) creating k, remove (k,e), erase k, clear}, elements {0,1}), "
+           "TSS<int> and TSD<int,TS<int>> over ONE key with a one-operation prefix cycle followed by NPRIM=3 primitives on that key in one cycle "
+           "(add-remove-add on an absent key, remove-add-remove on a present key, set-erase-set, ...)} (enumerated) observed through the producer view, a bound TSInput consumer, delta_value() and capture_delta(); NCYC cycles (TSS: NCYC_TSS with TSS_LAST mutations in the last one, "
            "TSD: NCYC_TSD with BIG_LAST in the last one, TSW: 2*NCYC with one mutation scope per cycle) of NOPS mutations each, enumerated from {nothing, add/remove/clear (TSS), set/erase/clear/"
            "element write/create without value/element invalidate (TSD), element write with growth/whole-value write (TSL, TSB), push/clear/clear+push (TSW)}; "
            "keys from {0..NK-1} (thorough: after a concrete ramp of RAMP further keys inserted in a first cycle, crossing the slot-store growth boundaries); base time, "
